@@ -191,19 +191,34 @@ var SEQ = (function(){
   }
   function run(kind, layers, mkProxy, ops){
     var mk = kind === "margs" ? function(){ return SEQ_SLOPPY_ARGS(1,2); } : function(){ return mkKind(kind); };
+    var inproto = /^inproto-/.test(kind);
+    if (inproto){ var bk = kind.slice(8); mk = function(){ return mkKind(bk); }; }
     var T1 = mk(), T2 = mk(), R1 = {r:1}, R2 = {r:1};
     var log = [], P = T2, i;
     for (i = 1; i <= layers; i++) P = mkProxy(P, i, log);
     var self = [T1, T2, P], out = [];
+    var B1 = T1, B2 = T2;
+    if (inproto){
+      // the proxy sits in the PROTOTYPE chain: operations go to an ordinary child object, the proxy sees them as
+      // inherited lookups with the child as receiver
+      T1 = Object.create(B1); T1.own = 1; P = Object.create(P); P.own = 1;
+      NAMES.set(B1, "base"); NAMES.set(B2, "base"); NAMES.set(Reflect.getPrototypeOf(P), "base");
+      self = [T1, P];
+    }
     for (i = 0; i < ops.length; i++){
       var a = attempt(T1, ops[i], R1, self);
       var mark = log.length;
       var b = attempt(P, ops[i], R2, self);
       if (a !== b) return "MISMATCH@"+i+" op="+ops[i]+" direct="+a+" proxy="+b;
-      out.push(ops[i]+"#"+a+"#"+facts(T1, ops[i], self)+"#"+log.slice(mark).join(","));
+      out.push(ops[i]+"#"+a+"#"+facts(T1, ops[i], self)+"#"+(inproto ? "" : log.slice(mark).join(",")));
     }
-    var d1 = dump(T1, self), d2 = dump(T2, self);
+    var d1 = dump(T1, self), d2 = dump(inproto ? P : T2, self);
     if (d1 !== d2) return "STATE-MISMATCH direct="+d1+" proxied="+d2;
+    if (inproto){
+      NAMES.delete(B1); NAMES.delete(B2);
+      d1 = dump(B1, self); d2 = dump(B2, self);
+      if (d1 !== d2) return "BASE-STATE-MISMATCH direct="+d1+" proxied="+d2;
+    }
     var r1 = dump(R1, self), r2 = dump(R2, self);
     if (r1 !== r2) return "RECEIVER-MISMATCH direct="+r1+" proxied="+r2;
     return "OK "+out.join(" | ");
@@ -478,6 +493,10 @@ func toIfaces(vs []goja.Value) []interface{} {
 
 // Q <kind> <layers> <J|G> <ops>     |     Q revoked <kind> <J|G> -
 func runSeq(f []string) string {
+	if len(f) > 0 && f[0] == "fresh" { // first operations on a fresh runtime (lazily initialised built-ins)
+		theSeq = newSeqEnv()
+		f = f[1:]
+	}
 	if theSeq == nil {
 		theSeq = newSeqEnv()
 	}
